@@ -447,7 +447,10 @@ class Guard:
             for a in n["arms"]:
                 m = self.pat(a["pat"], path)
                 if m is None:
-                    self.run_value(a["body"], rest)
+                    # the pattern tests another parameter's variant: the arm is taken for any f - as far as its guard
+                    # (`Some(start) if start.iter().any(..)`) allows
+                    g_ = self.cond(a["guard"]) if a.get("guard") else None
+                    self.run_value(a["body"], rest.intersect(g_) if g_ is not None else rest)
                     continue
                 if m.is_empty():
                     continue
@@ -459,6 +462,14 @@ class Guard:
         if kk == "Ret":
             self.run_value(n["e"], inp)
             return
+        if kk in ("MethodCall", "Call") and re.match(r"^(std::|core::)?(result::)?Result<\(\),", (self.c.ty(n.get("t")) or "").replace(" ", "")):
+            # `self.validate_last()` in tail position of a `-> Result<(), E>` validator: `self.validate_last()?; Ok(())`
+            opaque_before = set(self.opaque)
+            handled, rest = self.helper_call(n, inp, n)
+            if handled:
+                self.ok = self.ok.union(rest)
+                return
+            self.opaque = opaque_before
         raise Unclassified("unrecognised tail expression: %s" % Render(self.c).e(n)[:120])
 
     def run_stmt(self, s, inp):
@@ -509,7 +520,8 @@ class Guard:
                 m = self.pat(a["pat"], path)
                 if m is None:
                     unknown = True
-                    out = out.union(self.run_branch(a["body"], rest))
+                    g_ = self.cond(a["guard"]) if a.get("guard") else None
+                    out = out.union(self.run_branch(a["body"], rest.intersect(g_) if g_ is not None else rest))
                     continue
                 if m.is_empty():
                     continue
@@ -547,15 +559,24 @@ class Guard:
         from the inputs that continue. Anything else is an opaque fallible sub-check."""
         sc = strip(m["scrut"])
         inner = strip(sc["args"][0]) if sc.get("k") == "Call" and sc["args"] else None
+        return self.helper_call(inner, inp, m)[1]
+
+    def helper_call(self, inner, inp, m):
+        """(handled, region that continues) for a call of a validation helper; `m` is the node recorded as an opaque
+        sub-check when the callee is not one"""
         callee = None
-        if inner is not None and inner.get("k") in ("MethodCall", "Call") and self.depth < 2:
+        arg_paths = None
+        if inner is not None and inner.get("k") in ("MethodCall", "Call") and self.depth < 3:
             di = inner.get("inst", inner.get("def")) if inner["k"] == "MethodCall" else strip(inner["f"]).get("inst", strip(inner["f"]).get("def"))
             recv_ok = False
-            arg_paths = None
+            whole = False
             if inner["k"] == "MethodCall":
                 recv_ok = self.path_of(inner["recv"]) == "" and not inner["args"]
             else:
                 recv_ok = len(inner["args"]) == 1 and self.path_of(inner["args"][0]) == ""
+                if recv_ok:
+                    # `Self::validate(&self.0)?`: the whole set handed to a helper under another name
+                    arg_paths, whole = [""], True
                 if not recv_ok and inner["args"]:
                     # `validate_stopping(&self.0.stopping)?`: a free helper that is handed (parts of) the parameters
                     ps_ = [self.path_of(a) for a in inner["args"]]
@@ -563,20 +584,28 @@ class Guard:
                         recv_ok, arg_paths = True, ps_
             if di is not None and recv_ok:
                 callee = next((f for f in self.c.fns if f["def"] == di and f is not self.fn), None)
-                if callee is not None and arg_paths is not None and not (len(callee["params"]) == len(arg_paths) and all(p_.get("k") == "Bind" for p_ in callee["params"])):
+                if callee is not None and arg_paths is not None and not (len(callee["params"]) == len(arg_paths) and all(p_.get("k") in ("Bind", "Tuple", "Ref") for p_ in callee["params"])):
                     callee = None
                 # only a pure validator (`-> Result<(), E>`) is read as part of the check; a fallible constructor that is handed
                 # a parameter (`SerdeRegex::new(&self.0.expr)?`) stays the opaque sub-check it is
-                if callee is not None and arg_paths is not None and not re.match(r"^(std::|core::)?(result::)?Result<\(\),", (callee.get("output") or "").replace(" ", "")):
+                if callee is not None and arg_paths is not None and not whole and not re.match(r"^(std::|core::)?(result::)?Result<\(\),", (callee.get("output") or "").replace(" ", "")):
                     callee = None
         if callee is None:
             self.effect(m)
-            return inp
+            return False, inp
         sub = Guard(callee, self.f, self.w, self.integer)
         sub.depth = self.depth + 1
         if arg_paths is not None:
             for p_, path_ in zip(callee["params"], arg_paths):
-                sub.env[p_["local"]] = path_
+                if p_.get("k") == "Bind":
+                    sub.env[p_["local"]] = path_
+                else:
+                    # `fn validate_c((c1, c2): (F, F))`: the parts of the argument are the parts of the parameter
+                    try:
+                        sub.pat(p_, path_)
+                    except Unclassified:
+                        self.effect(m)
+                        return False, inp
         try:
             sub.run_value(callee["body"], inp)
         except Unclassified as e:
@@ -634,14 +663,14 @@ class Guard:
                     ty = self.c.ty(peel_refs(y["recv"]).get("t")) or ""
                     if py is not None and "Option<" in ty and not any(x in ty for x in ("Option<f32>", "Option<f64>", "Option<usize>", "Option<u64>", "Option<F>", "Option<i32>", "Option<u32>")):
                         self.opaque.add("state:" + py)
-            return inp
+            return True, inp
         self.err = self.err.union(sub.err)
         self.relations |= sub.relations
         self.opaque |= sub.opaque
         self.lossy_tests |= sub.lossy_tests
         for p_, t_ in sub.paths_seen.items():
             self.paths_seen.setdefault(p_, t_)
-        return inp.minus(sub.err)
+        return True, inp.minus(sub.err)
 
     def effect(self, n):
         """A statement that is not a guard: record `?` on fallible calls as opaque sub-checks."""
